@@ -4,6 +4,7 @@ from __future__ import annotations
 import ast
 
 from .. import cfg as C
+from ..flow import explicit_keywords
 from ..report import AnalysisError
 from ..srcmodel import Cls, Func, norm
 from ..state import StateAnalysis, attr_reads, attr_writes, self_attr
@@ -401,11 +402,12 @@ def rule_g(ctx):
                 if isinstance(c, ast.Call) and isinstance(c.func, ast.Attribute) and c.func.attr == "update_params":
                     n += 1
                     ctx.instance(R)
-                    args = [norm(a) for a in c.args] + [f"{kw.arg}={norm(kw.value)}" for kw in c.keywords]
-                    if any(kw.arg is None for kw in c.keywords) or any(isinstance(a, ast.Starred) for a in c.args):
+                    kws = explicit_keywords(f.node, c)
+                    if kws is None or any(isinstance(a, ast.Starred) for a in c.args):
                         ctx.ob(R, f.qname, f"`{norm(c.func)}` receives every parameter in its own position", False, "forwarding through * / ** arguments: correspondence not found", c)
                         continue
-                    ok = [norm(a) for a in c.args] == params[:len(c.args)] and all(kw.arg == norm(kw.value) for kw in c.keywords) and len(c.args) + len(c.keywords) == len(params)
+                    args = [norm(a) for a in c.args] + [f"{k}={norm(v)}" for k, v in kws]
+                    ok = [norm(a) for a in c.args] == params[:len(c.args)] and all(k == norm(v) for k, v in kws) and len(c.args) + len(kws) == len(params)
                     ctx.ob(R, f.qname, f"`{norm(c.func)}` receives every parameter in its own position", ok, str(args), c)
     ctx.floor(R, 5)
 
